@@ -837,7 +837,7 @@ def generate(rng, tier):
     else:
         ext_sets = all_sets
     nets = [("v4", None), ("v6", None), ("ip4", None), ("ip4au", None)] + [("ip6", s) for s in ext_sets]
-    reps = 1 if quick else 3
+    reps = 1 if quick else 2
     for _ in range(reps):
         for lk, vk in lv:
             # ARP
